@@ -361,7 +361,8 @@ func (m *Mast) flush(ctx context.Context) (string, error) {
 		return nil, fmt.Errorf("unknown node format '%v'", m.nodeFormat)
 	}
 
-	str, err := node.store(ctx, m.persist, m.nodeCache, versionedMarshaler, storeQ)
+	var commits []func()
+	str, err := node.store(ctx, m.persist, m.nodeCache, versionedMarshaler, storeQ, &commits)
 	close(storeQ)
 	wg.Wait()
 	if err != nil {
@@ -369,6 +370,10 @@ func (m *Mast) flush(ctx context.Context) (string, error) {
 	}
 	if firstStoreError != nil {
 		return "", firstStoreError
+	}
+	// Every write has succeeded: only now do the nodes become clean.
+	for _, commit := range commits {
+		commit()
 	}
 	m.root = str
 	return str, nil
